@@ -13,7 +13,7 @@ structure SameProcs (s s' : St) : Prop where
 theorem SameProcs.refl (s : St) : SameProcs s s := ⟨rfl, rfl, rfl⟩
 theorem SameProcs.trans {a b c : St} (h1 : SameProcs a b) (h2 : SameProcs b c) : SameProcs a c :=
   ⟨h2.procs.trans h1.procs, h2.sorted.trans h1.sorted, h2.prio.trans h1.prio⟩
-theorem SameTables.toProcs {s s' : St} (h : SameTables s s') : SameProcs s s' :=
+theorem SameTables.toProcs {s s' : St} (h : SameTables U s s') : SameProcs s s' :=
   ⟨h.procs, h.sorted, h.prio⟩
 
 theorem detach_procs (s : St) (e : Ent) (st : Ty) : SameProcs s (detach s e st) := by
@@ -141,11 +141,11 @@ theorem callCb_procs (U : Universe) (s : St) (o : Obj) (m : String) (e : Entry) 
     SameProcs s (callCb U s o m e).1 := (callCb_tables U s o m e).toProcs
 
 theorem deliverPlain_tables (U : Universe) (s : St) (ev args : String) :
-    SameTables s (deliverPlain U s ev args).1 := by
+    SameTables U s (deliverPlain U s ev args).1 := by
   unfold deliverPlain
   generalize s.registered = l
-  suffices H : ∀ (acc : St × Outcome), SameTables s acc.1 →
-      SameTables s (l.foldl (fun (acc : St × Outcome) o =>
+  suffices H : ∀ (acc : St × Outcome), SameTables U s acc.1 →
+      SameTables U s (l.foldl (fun (acc : St × Outcome) o =>
         match acc.2 with
         | .ok =>
           match (U.mapOf o).bind (fun m => Dict.get? m ev) with
@@ -166,16 +166,16 @@ theorem deliverPlain_tables (U : Universe) (s : St) (ev args : String) :
     all_goals exact h
 
 theorem dispatchPlain_tables (U : Universe) (s : St) (ev args : String) :
-    SameTables s (dispatchPlain U s ev args).1 := by
+    SameTables U s (dispatchPlain U s ev args).1 := by
   unfold dispatchPlain
   split
   · exact .refl s
   · split
-    · exact ⟨rfl, rfl, rfl, rfl, rfl, rfl, rfl⟩
+    · exact ⟨rfl, rfl, fun _ => rfl, rfl, rfl, rfl, rfl⟩
     · exact deliverPlain_tables U s ev args
 
 theorem runProcs_tables (U : Universe) (s : St) (dt : String) (ps : List Obj) :
-    SameTables s (runProcs U s dt ps).1 := by
+    SameTables U s (runProcs U s dt ps).1 := by
   induction ps generalizing s with
   | nil => exact .refl s
   | cons p ps ih =>
@@ -187,7 +187,7 @@ theorem runProcs_tables (U : Universe) (s : St) (dt : String) (ps : List Obj) :
       cases o <;> simp only
       · split
         · rename_i s'' hy
-          have h2 : SameTables s' s'' := by
+          have h2 : SameTables U s' s'' := by
             split at hy
             · have := dispatchPlain_tables U s' "on_update" dt
               rw [hy] at this; exact this
@@ -209,7 +209,7 @@ theorem process_procs (U : Universe) (s : St) (dt : String) : SameProcs s (proce
     · exact h1.trans (runProcs_tables U s' dt _).toProcs
     all_goals exact h1
 
-theorem deliverQ_tables (U : Universe) (s : St) (q : QEv) : SameTables s (deliverQ U s q).1 := by
+theorem deliverQ_tables (U : Universe) (s : St) (q : QEv) : SameTables U s (deliverQ U s q).1 := by
   cases q with
   | plain ev args =>
     simp only [deliverQ]
@@ -225,12 +225,12 @@ theorem deliverQ_tables (U : Universe) (s : St) (q : QEv) : SameTables s (delive
       · exact SameTables.trans (ctrlRecord_tables U s event h ent) (callCb_tables U _ h _ _)
 
 theorem releaseQ_tables (U : Universe) (s : St) (qs : List QEv) :
-    SameTables s (releaseQ U s qs).1 := by
+    SameTables U s (releaseQ U s qs).1 := by
   induction qs generalizing s with
-  | nil => exact ⟨rfl, rfl, rfl, rfl, rfl, rfl, rfl⟩
+  | nil => exact ⟨rfl, rfl, fun _ => rfl, rfl, rfl, rfl, rfl⟩
   | cons q qs ih =>
     simp only [releaseQ]
-    have h0 : SameTables s { s with queue := qs } := ⟨rfl, rfl, rfl, rfl, rfl, rfl, rfl⟩
+    have h0 : SameTables U s { s with queue := qs } := ⟨rfl, rfl, fun _ => rfl, rfl, rfl, rfl, rfl⟩
     have h1 := deliverQ_tables U { s with queue := qs } q
     cases hx : deliverQ U { s with queue := qs } q with
     | mk s' o =>
@@ -240,10 +240,10 @@ theorem releaseQ_tables (U : Universe) (s : St) (qs : List QEv) :
       all_goals exact h0.trans h1
 
 theorem setEnabled_tables (U : Universe) (s : St) (b : Bool) :
-    SameTables s (setEnabled U s b).1 := by
+    SameTables U s (setEnabled U s b).1 := by
   unfold setEnabled
   simp only
-  have h0 : SameTables s { s with enabled := b } := ⟨rfl, rfl, rfl, rfl, rfl, rfl, rfl⟩
+  have h0 : SameTables U s { s with enabled := b } := ⟨rfl, rfl, fun _ => rfl, rfl, rfl, rfl, rfl⟩
   split
   · exact h0.trans (releaseQ_tables U _ _)
   · exact h0
